@@ -38,6 +38,9 @@ CHECKS = {
  "C15": ("exploration", "complete enumeration of finite domains (table cells, ordered observation sequences) against a set-algebra reference model, on the real tables and through real build/map",
          "Every cell of both lookup tables, every letter of the classification/weight domains and every ordered sequence of <=4 observations are enumerated (exhaustive: true); the domains are finite so nothing is left to a bound.",
          "Trusts the harness's 15-entry code<->set bijection; U is outside the algebra.", "DESIGN.md §5 C15"),
+ "C19": ("fault_enumeration", "exhaustive single-fault enumeration (every truncation length, every single-bit flip) of real .skf files through the real loader and CLI",
+         "Every one of the len + 8*len damaged images of six files (64/128-bit, one or several samples, one or several snappy frames, stored-uncompressed chunks, files written by delete) is loaded exactly as main does; each must be rejected or decode to the original content. The space is finite and enumerated completely.",
+         "One fault per image; subject files are produced once per run by the real save so that all shards damage the same bytes.", "DESIGN.md §5 C19"),
 }
 IMPLEMENTED = set(CHECKS)
 ALL = ["C%02d" % i for i in range(1, 21)]
